@@ -29,7 +29,7 @@ class Spec(core.PropSpec):
         w = T.gen_world(st("world"), max_n=40 if tier == "quick" else 96, max_cfg=4 if tier == "quick" else 6)
         ro = st("ops")
         return dict(world=w, via=ro.choice(["sampler", "batch_sampler"]), reiterate=ro.random() < 0.3,
-                    foreign_epoch=ro.choice([None, None, None, 97]))
+                    foreign_epoch=ro.choice([None, None, None, 97]), peek=ro.choice([None, None, None, 1, 3]))
 
     def shrink_candidates(self, plan):
         yield from T.world_candidates(plan)
@@ -47,7 +47,14 @@ class Spec(core.PropSpec):
             return out
         cap = len(ref) + 50
         try:
-            hist, terminated = T.run_sampler(w, via=plan["via"], cap=cap, foreign_epoch=plan.get("foreign_epoch"))
+            if plan.get("peek"):
+                # somebody looks at the first batch (or the first index) and abandons that iteration, then the real pass starts
+                T.run_sampler(w, via=plan["via"], cap=plan["peek"], foreign_epoch=plan.get("foreign_epoch"))
+                s_obj, s_log = T.run_sampler.last
+                out.count("fault:peek_then_iterate")
+                hist, terminated = T.run_sampler(w, via=plan["via"], cap=cap, sampler=s_obj, log=s_log)
+            else:
+                hist, terminated = T.run_sampler(w, via=plan["via"], cap=cap, foreign_epoch=plan.get("foreign_epoch"))
             hist = list(hist)
             if plan.get("reiterate") and terminated:
                 # iterating the same sampler object again must give the same stream (every pass starts at the start epoch)
